@@ -229,6 +229,10 @@ func (r *realFSM) transfer(dstType fsm.SnapshotRecoveryType, late []gEntry) (*re
 		if _, _, err := r.apply(late); err != nil {
 			return nil, err
 		}
+		// dragonboat syncs the state machine before a concurrent save: the late batch reaches the DB's files
+		if err := r.f.Sync(); err != nil {
+			return nil, err
+		}
 	}
 	var buf bytes.Buffer
 	if err := r.f.SaveSnapshot(ctx, &buf, nil); err != nil {
